@@ -45,6 +45,23 @@ def fhex(x: float) -> str:
     return struct.pack("<d", float(x)).hex()
 
 
+def roi_text(roi) -> str:
+    """the text of a Spot element: the coordinate tokens exactly as given, separated by the ROI's own
+    whitespace pattern (`ws` = {"lead", "trail", "seps": cycled}); TrackMate writes single blanks, other
+    writers use tabs / line breaks / several blanks — `str.split()` semantics"""
+    if roi["pts"] is None:
+        return ""
+    toks = [v for p in roi["pts"] for v in p]
+    ws = roi.get("ws") or {}
+    seps = ws.get("seps") or [" "]
+    out = ws.get("lead", "")
+    for i, t in enumerate(toks):
+        out += t
+        if i + 1 < len(toks):
+            out += seps[i % len(seps)]
+    return out + ws.get("trail", "")
+
+
 def render(doc) -> str:
     def attrs(d):
         return "".join(f" {k}={quoteattr(str(v))}" for k, v in d.items())
@@ -85,7 +102,7 @@ def render(doc) -> str:
             roi = s.get("roi")
             if roi is not None:
                 a["ROI_N_POINTS"] = roi["n"]
-                txt = "" if roi["pts"] is None else " ".join(v for p in roi["pts"] for v in p)
+                txt = roi_text(roi)
                 out.append(f"        <Spot{attrs(a)}>{txt}</Spot>")
             else:
                 out.append(f"        <Spot{attrs(a)} />")
@@ -439,13 +456,101 @@ def oracle(case, o):
 # ----------------------------------------------------------------- generators
 FLOAT_TEXTS = ["0.0", "1.5", "-2.25", "63.76923076923077", "1e-05", "3", "NaN", "Infinity", "-Infinity", "1.0E10", "0.1"]
 INT_TEXTS = ["0", "1", "-1", "7", "42", "-300", "65536", "2147483647", "-2147483648"]
+# doubles whose textual renderings differ a lot: tiny, huge, negative, zero, integral, many digits
+DOUBLES = [0.0, -0.0, 1.0, 7.0, -3.0, 0.5, -2.25, 63.76923076923077, 0.1, 1e-7, -1e-7, 2.5e-5, -3.0e-4, 1.2345e-9,
+           1e12, -4.5e12, 1.0e10, 123456789.125, 9.999999e6, 1.0e7, 0.001, 0.00099, 3.141592653589793, -0.30000000000000004,
+           5e-324, 1.7976931348623157e308, 255.0, 1e-05, 100.0, 2.0 ** 53]
+ROI_WS = [None, None, {"seps": ["  "]}, {"seps": ["\t"]}, {"seps": ["\n"]}, {"seps": [" ", "\n      "], "lead": "\n      ", "trail": "\n    "},
+          {"seps": [" ", "\t", "   ", "\r\n"], "lead": " ", "trail": "  "}, {"lead": "   ", "trail": "\t"}]
+
+
+def java_double(x: float) -> str:
+    """Java's Double.toString (what TrackMate writes): decimal for 1e-3 <= |x| < 1e7, otherwise
+    computerised scientific notation d.dddE[-]n with at least one digit after the point"""
+    from decimal import Decimal
+
+    if x != x:
+        return "NaN"
+    if x in (float("inf"), float("-inf")):
+        return "Infinity" if x > 0 else "-Infinity"
+    sign = "-" if math.copysign(1.0, x) < 0 else ""
+    a = abs(x)
+    if a == 0:
+        return sign + "0.0"
+    t = Decimal(repr(a)).as_tuple()
+    digits = "".join(map(str, t.digits)).rstrip("0") or "0"
+    e = len(t.digits) + t.exponent - 1
+    if 1e-3 <= a < 1e7:
+        txt = format(Decimal(repr(a)), "f")
+        if "." not in txt:
+            txt += ".0"
+        return sign + txt
+    return f"{sign}{digits[0]}.{digits[1:] or '0'}E{e}"
+
+
+def float_renderings(x: float):
+    """several texts of (about) the same double; the oracle always takes float(text) of the text written"""
+    if x != x or x in (float("inf"), float("-inf")):
+        return [java_double(x)]
+    out = [repr(x), java_double(x), f"{x:e}", f"{x:.3e}".replace("e", "E"), "%g" % x, "%.17g" % x]
+    if x >= 0 and math.copysign(1.0, x) > 0:
+        out.append("+" + repr(x))
+        out.append("+" + java_double(x))
+    if abs(x) < 1e15 and x == int(x):
+        out += [str(int(x)), str(int(x)) + ".0", str(int(x)) + "."]
+    if 1e-4 <= abs(x) < 1e9:
+        out += [f"{x:.12f}", f"{x:.17f}", f"{x:.20f}"]
+    if 0 < abs(x) < 1:
+        r = repr(abs(x))
+        if r.startswith("0.") and "e" not in r:
+            out.append(("-" if x < 0 else "") + r[1:])          # ".5"
+    # "-0" parses as the int 0 and as the float -0.0: not a text TrackMate writes, and outside the model's lexer classes
+    return [t for t in out if t.lstrip("+-").strip("0") != "" or not t.startswith("-") or "." in t or "e" in t.lower()]
+
+
+def ftext(rng, special=True, pool=None):
+    """a float text for a feature value / coordinate: a double from `pool` in one of its renderings"""
+    if special and rng.random() < 0.12:
+        return rng.choice(["NaN", "Infinity", "-Infinity"])
+    x = rng.choice(pool or DOUBLES) if rng.random() < 0.7 else rng.uniform(-100, 100) * rng.choice([1e-6, 1e-3, 1, 1, 1, 1e6, 1e11])
+    return rng.choice(float_renderings(x))
+
+
+def ftext_det(i):
+    """deterministic variety for the exhaustive stream"""
+    x = DOUBLES[(3 * i + 1) % len(DOUBLES)]
+    r = float_renderings(x)
+    return r[(5 * i + 2) % len(r)]
+
+
+POS_POOL = [0.0, 1.0, 7.0, 0.5, 63.76923076923077, 1e-7, 2.5e-5, -3.0e-4, 1e12, 1.0e10, -2.25, 123456789.125, 255.0, 100.0]
 
 
 def base_spot(i, sid, frame, rng=None):
-    f = {"QUALITY": "1.5" if rng is None else rng.choice(FLOAT_TEXTS[:5]),
-         "POSITION_X": str(float(i)) if rng is None else f"{rng.uniform(0, 100):.6f}",
-         "POSITION_Y": str(2.0 * i), "POSITION_Z": "0.0", "POSITION_T": str(float(frame)), "FRAME": str(frame)}
+    if rng is None:
+        f = {"QUALITY": ftext_det(i), "POSITION_X": ftext_det(i + 7), "POSITION_Y": ftext_det(2 * i + 11),
+             "POSITION_Z": "0.0" if i % 2 else "0", "POSITION_T": str(float(frame)) if i % 3 else str(frame), "FRAME": str(frame)}
+    else:
+        f = {"QUALITY": ftext(rng), "POSITION_X": ftext(rng, special=False, pool=POS_POOL),
+             "POSITION_Y": ftext(rng, special=False, pool=POS_POOL), "POSITION_Z": rng.choice(["0.0", "0", "0.0E0", "-0.0", "1.5E-4"]),
+             "POSITION_T": rng.choice(float_renderings(float(frame))), "FRAME": str(frame)}
     return {"id": sid, "frame": frame, "name": f"ID{sid}", "f": f, "roi": None}
+
+
+def det_roi(i, k):
+    """deterministic ROI for the exhaustive stream: 0 (no text) / 1 / 2 / 3 points, 2-D, scientific
+    notation and unusual whitespace included"""
+    npts = (i + k) % 4
+    if npts == 0:
+        return {"n": 0, "pts": None}
+    return {"n": npts, "pts": [[ftext_det(7 * i + 2 * j + k), ftext_det(5 * i + 2 * j + 1 + k)] for j in range(npts)],
+            "ws": ROI_WS[(i + k) % len(ROI_WS)]}
+
+
+def rand_roi(rng, k, dim):
+    pool = [0.0, -0.0, 1e-7, -1e-7, 2.5e-5, -3.0e-4, 1e12, -4.5e12, 1.0e10, 1.5, -2.25, 63.76923076923077, 7.0, 1e-05]
+    return {"n": k, "pts": [[ftext(rng, special=False, pool=pool) for _ in range(dim)] for _ in range(k)],
+            "ws": rng.choice(ROI_WS)}
 
 
 def mk_doc(spots, tracks, filtered=None, **kw):
@@ -482,7 +587,10 @@ def exhaustive(nmax):
             es = [p for i, p in enumerate(pairs) if k >> i & 1]
             comps = components(n, es)
             spots = [base_spot(i, 10 + i, i) for i in range(n)]
-            tracks = [{"id": ti, "name": f"Track_{ti}", "f": {}, "edges": [{"s": 10 + a, "t": 10 + b, "f": {"LINK_COST": f"{a}.{b}"} if (a + b) % 2 else {}}
+            if k % 3 == 1:
+                for i, sp in enumerate(spots):
+                    sp["roi"] = det_roi(i, k)
+            tracks = [{"id": ti, "name": f"Track_{ti}", "f": {}, "edges": [{"s": 10 + a, "t": 10 + b, "f": {"LINK_COST": ftext_det(3 * a + b + k)} if (a + b) % 2 else {}}
                                                                              for a, b in comp]}
                       for ti, comp in enumerate(comps)]
             tids = [t["id"] for t in tracks]
@@ -516,7 +624,7 @@ def random_doc(rng, big=False):
         frac = rng.choice([0.0, 0.3, 0.7, 1.0])
         for s in spots:
             if rng.random() < frac:
-                s["f"][f"SF{j}"] = rng.choice(INT_TEXTS if isint else FLOAT_TEXTS)
+                s["f"][f"SF{j}"] = rng.choice(INT_TEXTS) if isint else ftext(rng)
     # tracks: vertex-disjoint, connected, edges forward in time (splits and merges allowed)
     order = list(range(nspots))
     rng.shuffle(order)
@@ -558,31 +666,31 @@ def random_doc(rng, big=False):
         for a, b in edges:
             f = {}
             if rng.random() < 0.7:
-                f["LINK_COST"] = rng.choice(FLOAT_TEXTS)
+                f["LINK_COST"] = ftext(rng)
             tes.append({"s": ids[a], "t": ids[b], "f": f})
         tracks.append({"id": tid_pool[ti], "name": f"Track_{tid_pool[ti]}",
-                       "f": {"TRACK_INDEX": str(ti), "TRACK_DURATION": "3.5"}, "edges": tes})
+                       "f": {"TRACK_INDEX": str(ti), "TRACK_DURATION": ftext(rng)}, "edges": tes})
     for j in range(rng.randint(0, 2)):
         isint = rng.random() < 0.4
         ef.append([f"EF{j}", isint, rng.choice(DIMS)])
         for t in tracks:
             for e in t["edges"]:
                 if rng.random() < 0.5:
-                    e["f"][f"EF{j}"] = rng.choice(INT_TEXTS if isint else FLOAT_TEXTS)
+                    e["f"][f"EF{j}"] = rng.choice(INT_TEXTS) if isint else ftext(rng)
     tids = [t["id"] for t in tracks]
     r = rng.random()
     filtered = None if r < 0.25 else [] if r < 0.35 else tids if r < 0.5 else [t for t in tids if rng.random() < 0.5] + ([99] if rng.random() < 0.1 else [])
-    # ROIs: none, or every spot
-    if spots and rng.random() < 0.35:
+    # ROIs: none, or every spot (0 points = no coordinate text, 1, 2, 3+ points; 2-D / 3-D; regular or ragged)
+    if spots and rng.random() < 0.45:
         dim = rng.choice([2, 2, 3])
         same = rng.random() < 0.4
         npts = rng.randint(1, 4)
         for s in spots:
             k = npts if same else rng.randint(1, 5)
-            if rng.random() < 0.1 and not same:
-                s["roi"] = {"n": k, "pts": None}
+            if rng.random() < 0.12 and not same:
+                s["roi"] = {"n": rng.choice([0, k]), "pts": None}
             else:
-                s["roi"] = {"n": k, "pts": [[f"{rng.uniform(-3, 3):.4f}" for _ in range(dim)] for _ in range(k)]}
+                s["roi"] = rand_roi(rng, k, dim)
     doc = mk_doc(spots, tracks, filtered, sf=sf, ef=ef, tf=tf)
     doc["space"] = rng.choice(["micrometer", "pixel", "nanometer", "millimeter", None])
     doc["time"] = rng.choice(["second", "frame", "minute", "hour", None])
